@@ -55,6 +55,7 @@ impl<T> Signal<T> {
         let v = self.state.load(Ordering::Relaxed);
         if v < LOCKED {
             fence(Ordering::Acquire);
+            fpa!(&self.state);
             Poll::Ready(v == UNLOCKED)
         } else {
             Poll::Pending
@@ -85,9 +86,11 @@ impl<T> Signal<T> {
     /// Waits for finishing async signal for a short time
     #[cfg(feature = "async")]
     pub(crate) fn async_blocking_wait(&self) -> bool {
+        fp!(ABW_ENTER);
         let v = self.state.load(Ordering::Relaxed);
         if v < LOCKED {
             fence(Ordering::Acquire);
+            fpa!(&self.state);
             return v == UNLOCKED;
         }
 
@@ -97,6 +100,7 @@ impl<T> Signal<T> {
             let v = self.state.load(Ordering::Relaxed);
             if v < LOCKED {
                 fence(Ordering::Acquire);
+                fpa!(&self.state);
                 return v == UNLOCKED;
             }
         }
@@ -108,6 +112,7 @@ impl<T> Signal<T> {
             let v = self.state.load(Ordering::Relaxed);
             if v < LOCKED {
                 fence(Ordering::Acquire);
+                fpa!(&self.state);
                 return v == UNLOCKED;
             }
             // increase sleep_time gradually to 262 microseconds
@@ -120,9 +125,11 @@ impl<T> Signal<T> {
     /// Waits for the signal event in sync mode,
     #[inline(always)]
     pub(crate) fn wait(&self) -> bool {
+        fp!(WAIT_ENTER);
         let v = self.state.load(Ordering::Relaxed);
         if v < LOCKED {
             fence(Ordering::Acquire);
+            fpa!(&self.state);
             return v == UNLOCKED;
         }
         for _ in 0..256 {
@@ -130,6 +137,7 @@ impl<T> Signal<T> {
             let v = self.state.load(Ordering::Relaxed);
             if v < LOCKED {
                 fence(Ordering::Acquire);
+                fpa!(&self.state);
                 return v == UNLOCKED;
             }
         }
@@ -139,6 +147,7 @@ impl<T> Signal<T> {
                 unsafe {
                     *waker.get() = Some(std::thread::current());
                 }
+                fp!(WAIT_BEFORE_STARVE_CAS);
                 match self.state.compare_exchange(
                     LOCKED,
                     LOCKED_STARVATION,
@@ -146,7 +155,9 @@ impl<T> Signal<T> {
                     Ordering::Acquire,
                 ) {
                     Ok(_) => loop {
+                        fp!(WAIT_BEFORE_PARK);
                         std::thread::park();
+                        fp!(WAIT_AFTER_PARK);
                         let v = self.state.load(Ordering::Acquire);
                         if v < LOCKED {
                             return v == UNLOCKED;
@@ -162,11 +173,13 @@ impl<T> Signal<T> {
 
     /// Waits for the signal event in sync mode with a timeout
     pub(crate) fn wait_timeout(&self, until: Instant) -> bool {
+        fp!(WAIT_TIMEOUT_ENTER);
         if get_parallelism() > 1 {
             for _ in 0..32 {
                 let v = self.state.load(Ordering::Relaxed);
                 if v < LOCKED {
                     fence(Ordering::Acquire);
+                    fpa!(&self.state);
                     return v == UNLOCKED;
                 }
                 // randomize next entry with yield_now
@@ -178,10 +191,12 @@ impl<T> Signal<T> {
             let v = self.state.load(Ordering::Relaxed);
             if v < LOCKED {
                 fence(Ordering::Acquire);
+                fpa!(&self.state);
                 return v == UNLOCKED;
             }
             backoff::yield_now_std();
         }
+        fp!(WAIT_TIMEOUT_EXPIRED);
         self.state.load(Ordering::Acquire) == UNLOCKED
     }
 
@@ -196,6 +211,7 @@ impl<T> Signal<T> {
     #[inline(always)]
     #[cfg(feature = "async")]
     pub(crate) fn register_waker(&mut self, waker: &Waker) {
+        fp!(REGISTER_WAKER);
         self.waker = KanalWaker::Async(waker.clone())
     }
 
@@ -203,6 +219,7 @@ impl<T> Signal<T> {
     #[inline(always)]
     #[cfg(feature = "async")]
     pub(crate) fn will_wake(&self, waker: &Waker) -> bool {
+        fp!(WILL_WAKE);
         match &self.waker {
             KanalWaker::Async(w) => w.will_wake(waker),
             KanalWaker::Sync(_) | KanalWaker::None => unreachable!(),
@@ -223,21 +240,28 @@ impl<T> Signal<T> {
     unsafe fn wake(this: *const Self, state: u8) {
         match &(*this).waker {
             KanalWaker::Sync(waker) => {
+                fp!(WAKE_SYNC_BEFORE_CAS);
                 if (*this)
                     .state
                     .compare_exchange(LOCKED, state, Ordering::Release, Ordering::Acquire)
                     .is_err()
                 {
+                    fp!(WAKE_SYNC_STARVED);
                     let thread = (*waker.get()).as_ref().unwrap().clone();
                     (*this).state.store(state, Ordering::Release);
+                    fp!(WAKE_SYNC_BEFORE_UNPARK);
                     thread.unpark();
                 }
+                fp!(WAKE_DONE);
             }
             #[cfg(feature = "async")]
             KanalWaker::Async(w) => {
                 let w = w.clone();
+                fp!(WAKE_ASYNC_CLONED);
                 (*this).state.store(state, Ordering::Release);
+                fp!(WAKE_ASYNC_BEFORE_WAKE);
                 w.wake();
+                fp!(WAKE_DONE);
             }
             #[cfg(feature = "async")]
             KanalWaker::None => unreachable!(),
@@ -248,7 +272,9 @@ impl<T> Signal<T> {
     /// Safety: it's only safe to be called only once on the receive signals
     /// that are not terminated
     pub(crate) unsafe fn send(this: *const Self, d: T) {
+        fp!(SEND_ENTER);
         (*this).ptr.write(d);
+        fp!(SEND_WRITTEN);
         Self::wake(this, UNLOCKED);
     }
 
@@ -265,7 +291,9 @@ impl<T> Signal<T> {
     /// Safety: it's only safe to be called only once on send signals that are
     /// not terminated
     pub(crate) unsafe fn recv(this: *const Self) -> T {
+        fp!(RECV_ENTER);
         let r = (*this).ptr.read();
+        fp!(RECV_READ);
         Self::wake(this, UNLOCKED);
         r
     }
@@ -274,6 +302,7 @@ impl<T> Signal<T> {
     /// Safety: it's only safe to be called only once on send/receive signals
     /// that are not finished or terminated
     pub(crate) unsafe fn terminate(this: *const Self) {
+        fp!(TERM_ENTER);
         Self::wake(this, TERMINATED);
     }
 
